@@ -489,24 +489,26 @@ def r3(ctx):
     fl = ctx.fn(repo.func(APP + ".Application.load_config_from_module_name_or_filename"))
 
     def run_source(fn, src_key, mapping, extra_atom):
-        sets = [c for c in walk_own(fn.node) if isinstance(c, ast.Call) and isinstance(c.func, ast.Attribute) and c.func.attr == "set" and tail(c.func.value) == "cfg" and len(c.args) == 2]
+        # Config.set is entered for real (a heap object stands for self.cfg): a name that is not a setting raises AttributeError
+        # there, a setting reaches `self.settings[name].set(value)` -- that inner call is what "applied" means, whichever way
+        # the caller keeps non-settings away from it (a filter in front of the call, or the exception afterwards)
+        from ..absint import Ref, HEAP
 
-        def probe_of(c):
-            def probe(ex, env):
-                k, v = ex.ev(c.args[0], env), ex.ev(c.args[1], env)
-                return (k, "None" if v is None else v) if isinstance(k, str) else UNKNOWN
-            return probe
-        probes = {nn.id: ("set@%d" % i, probe_of(c)) for i, c in enumerate(sets) for nn in nodes_with(fn, c)}
+        def tr(ex, c, env):
+            if len(c.args) == 1 and isinstance(c.func.value, ast.Subscript):
+                k, v = ex.ev(c.func.value.slice, env), ex.ev(c.args[0], env)
+                return ("applied", k, "None" if v is None else v) if isinstance(k, str) else UNKNOWN
+            return Explorer.SKIP
 
         def at(e):
             return extra_atom(e) or atom_of(e)
         env = {"CLI_NS": SpecObj(config=None, args=()), "ENV_NS": SpecObj(config=None, args=()), "DEFAULT_LOCATION": None, src_key: mapping,
-               "self.cfg.settings": {"proc_name": 1, "accesslog": 1, "workers": 1}, "location": "gunicorn.conf.py"}
-        outs = Explorer(fn, atom_of=at, max_states=200000).run(fn.cfg.entry, env, probes=probes)
+               "self.cfg": Ref("cfg", CFG + ".Config"), HEAP: {("cfg", "settings"): {"proc_name": 1, "accesslog": 1, "workers": 1}}, "location": "gunicorn.conf.py"}
+        outs = Explorer(fn, atom_of=at, max_states=200000, enter=lambda q: q == CFG + ".Config.set", call_trace={".set": tr}).run(fn.cfg.entry, env)
         res = []
         for o in outs:
             if o.kind == "return":
-                res.append(set(v for nm, v in o.events if isinstance(nm, str) and nm.startswith("set@")))
+                res.append(set(("U" if v == "U" else (v[1], v[2])) for q, v in o.env.get(Explorer.TRACE, ()) if q == ".set"))
         return res
     for label, fn, src_key, mapping, want, extra in (
             ("framework mapping returned by init()", f, "FRAMEWORK", {"proc_name": None, "workers": 3}, {("proc_name", "None"), ("workers", 3)},
